@@ -13,7 +13,9 @@
     Besides the labels, three things the model computes are compared with the journal: every verdict the
     parser writes for the instance, the set of tasks each push reads, and - at every point the harness found
     the real engine quiescent - that the model has nothing in flight either.
-    Scope: scenarios marked 'core' (no pre-checks, cancel, continue, injected failures) with one dag instance.
+    - a push is inferred from what follows it: the pre-check verdict it writes, or the first write of the run
+      it leads to (a push that the executor refuses leaves no trace and is resolved at the next quiescent point).
+    Scope: scenarios marked 'core' (no cancel, no injected failures) with one dag instance.
 
     The verdict is the correspondence; the monitor says whether every accepted delivery carried the task's
     current persisted status ([validate], the hypothesis of the safety theorems in EngineFacts). *)
@@ -24,7 +26,7 @@ Local Open Scope Z_scope.
 
 Definition est_of (z : Z) : option est :=
   match z with 1 => Some SInit | 2 => Some SRunning | 3 => Some SEnding | 4 => Some SSuccess | 5 => Some SFailed
-             | 7 => Some SRetrying | _ => None end.
+             | 7 => Some SRetrying | 8 => Some SBlocked | 9 => Some SContinue | 10 => Some SSkipped | _ => None end.
 
 Fixpoint alookup (l : list (Z * list Z)) (k : Z) : list Z :=
   match l with [] => [] | (k', v) :: r => if Z.eqb k k' then v else alookup r k end.
@@ -48,11 +50,12 @@ Definition deps_of (recs : list trec) : list (Z * list Z) :=
 
 Record acc := { a_ec : eng;
                 a_stale : list Z;      (* deliveries accepted with a stale snapshot *)
-                a_started : bool }.    (* the instance was just marked running by the scheduler watch *)
+                a_started : bool;      (* the instance was just marked running by the scheduler watch *)
+                a_defer : bool }.      (* an initialisation found nothing executable and its verdict depends on the walk order: it is taken when the verdict is written *)
 
 Inductive res := Ok (a : acc) | Rej (code : Z) (subject : Z).
 
-Definition ins_code (i : ist) : Z := match i with IRunning => 3 | IFailed => 5 | ISuccess => 6 end.
+Definition ins_code (i : ist) : Z := match i with IRunning => 3 | IBlocked => 4 | IFailed => 5 | ISuccess => 6 end.
 
 Section A.
   Variable tasks : list Z.
@@ -60,7 +63,7 @@ Section A.
   Definition deps (t : Z) : list Z := alookup depl t.
   Notation stp := (step tasks deps false false false).
 
-  Definition with_ec (a : acc) (s : eng) : acc := {| a_ec := s; a_stale := a_stale a; a_started := a_started a |}.
+  Definition with_ec (a : acc) (s : eng) : acc := {| a_ec := s; a_stale := a_stale a; a_started := a_started a; a_defer := a_defer a |}.
 
   Definition do_step (a : acc) (l : label) (code subj : Z) : res :=
     match stp (a_ec a) l with
@@ -79,7 +82,7 @@ Section A.
           let k' := upd (know s) t st in
           let pushes := if done st then filter (pushable deps k') (children tasks deps t)
                         else if est_eqb st SInit then [t] else [] in
-          Some (t, pushes, match pushes, verdict_of tasks deps k' with [], VRunning => false | [], _ => true | _, _ => false end)
+          Some (t, pushes, match pushes, verdict_of tasks deps false k' with [], VRunning => false | [], _ => true | _, _ => false end)
         else Some (t, [], false)
     end.
 
@@ -89,7 +92,7 @@ Section A.
     | O => Ok a
     | S f =>
         match head_effect (a_ec a) with
-        | Some (t, [], false) => bind (do_step a Deliver 78 t) (flush f)
+        | Some (t, [], false) => bind (do_step a (Deliver false) 78 t) (flush f)
         | _ => Ok a
         end
     end.
@@ -99,18 +102,31 @@ Section A.
   (** the run of [t] wrote its last status: it is unregistered, its event queued *)
   Definition finish (a : acc) (t : Z) : res := bind (do_step a (Finish t) 79 t) flush_all.
 
-  (** the run of [t] that is about to write must have been delivered with snapshot [sn] *)
-  Definition ensure_queued (a : acc) (t : Z) (sn : est) : res :=
+  Definition find_sn (l : list (Z * est)) (t : Z) : option est :=
+    match find (fun p => Z.eqb (fst p) t) l with Some p => Some (snd p) | None => None end.
+
+  (** the run of [t] that is about to write: it was delivered (pushed first, if the push has not been seen yet)
+      with the snapshot it returns *)
+  Definition ensure_queued (a : acc) (t : Z) : res * est :=
     match runs (a_ec a) t with
-    | RQueued s => if est_eqb s sn then Ok a else Rej 60 t
+    | RQueued s => (Ok a, s)
     | RNone =>
-        match stp (a_ec a) (Accept t sn) with
-        | Some s' => Ok {| a_ec := s';
-                           a_stale := if est_eqb (store (a_ec a) t) sn then a_stale a else t :: a_stale a;
-                           a_started := a_started a |}
-        | None => Rej 61 t
+        let accept (a0 : acc) (sn : est) : res :=
+          match stp (a_ec a0) (Accept t sn) with
+          | Some s' => Ok {| a_ec := s';
+                             a_stale := if est_eqb (store (a_ec a0) t) sn then a_stale a0 else t :: a_stale a0;
+                             a_started := a_started a0; a_defer := a_defer a0 |}
+          | None => Rej 61 t
+          end in
+        match find_sn (pend (a_ec a)) t with
+        | Some sn => (accept a sn, sn)
+        | None =>
+            match find_sn (pushq (a_ec a)) t with
+            | Some sn => (bind (do_step a (PushRun t sn) 63 t) (fun a1 => accept a1 sn), sn)
+            | None => (Rej 64 t, SInit)
+            end
         end
-    | _ => Rej 62 t
+    | _ => (Rej 62 t, SInit)
     end.
 
   Definition same_set (a b : list Z) : bool :=
@@ -122,7 +138,7 @@ Section A.
     | Some (t, pushes, _) =>
         match pushes with
         | [] => Rej 72 t
-        | _ => if same_set pushes ids then bind (do_step a Deliver 73 t) flush_all else Rej 74 t
+        | _ => if same_set pushes ids then bind (do_step a (Deliver false) 73 t) flush_all else Rej 74 t
         end
     | None => Rej 71 0
     end.
@@ -131,7 +147,7 @@ Section A.
   Definition deliver_verdict (a : acc) (st : Z) : res :=
     match head_effect (a_ec a) with
     | Some (t, [], true) =>
-        bind (do_step a Deliver 66 t) (fun a' => if Z.eqb (ins_code (ins (a_ec a'))) st then flush_all a' else Rej 67 t)
+        bind (do_step a (Deliver (Z.eqb st 4)) 66 t) (fun a' => if Z.eqb (ins_code (ins (a_ec a'))) st then flush_all a' else Rej 67 t)
     | Some (t, _, _) => Rej 68 t
     | None => Rej 69 0
     end.
@@ -139,33 +155,44 @@ Section A.
   Definition restart_idle_if_needed (a : acc) : acc :=
     match stp (a_ec a) RestartIdle with Some s' => with_ec a s' | None => a end.
 
+  (** a push wrote a pre-check verdict *)
+  Definition on_verdict (a : acc) (id : Z) (skip : bool) : res :=
+    match find_sn (pushq (a_ec a)) id with
+    | Some sn => bind (do_step a (if skip then PushSkip id sn else PushBlock id sn) 57 id) flush_all
+    | None => Rej 58 id
+    end.
+
   Definition on_patch (a : acc) (id st : Z) : res :=
     match st with
     | 0 => Ok a
-    | 2 => bind (ensure_queued a id SInit) (fun a1 => do_step a1 (StartWrite id) 40 id)
-    | 1 => bind (ensure_queued a id SRetrying) (fun a1 => bind (do_step a1 (StartWrite id) 41 id) (fun a2 => finish a2 id))
+    | 2 => let '(r, sn) := ensure_queued a id in
+           bind r (fun a1 => match sn with SInit | SContinue => do_step a1 (StartWrite id) 40 id | _ => Rej 59 id end)
+    | 1 => let '(r, sn) := ensure_queued a id in
+           bind r (fun a1 => match sn with
+                             | SRetrying => bind (do_step a1 (StartWrite id) 41 id) (fun a2 => finish a2 id)
+                             | _ => Rej 59 id end)
     | 3 => do_step a (MainOk id) 42 id
     | 4 => match runs (a_ec a) id with
            | REnding => bind (do_step a (AfterOk id) 43 id) (fun a1 => finish a1 id)
-           | _ => bind (ensure_queued a id SEnding) (fun a1 =>
-                  bind (do_step a1 (StartWrite id) 44 id) (fun a2 => bind (do_step a2 (AfterOk id) 45 id) (fun a3 => finish a3 id)))
+           | _ => let '(r, sn) := ensure_queued a id in
+                  bind r (fun a1 => match sn with
+                                    | SEnding => bind (do_step a1 (StartWrite id) 44 id) (fun a2 => bind (do_step a2 (AfterOk id) 45 id) (fun a3 => finish a3 id))
+                                    | _ => Rej 59 id end)
            end
-    | 5 => let has sn := existsb (fun p => Z.eqb (fst p) id && est_eqb (snd p) sn) (pend (a_ec a)) in
-           bind
-           match runs (a_ec a) id with
-           | RInMain => do_step a (MainErr id) 46 id
-           | REnding => do_step a (AfterErr id) 47 id
-           | RQueued SInit => do_step a (BeforeErr id) 48 id
-           | RQueued SRetrying => do_step a (RetryErr id) 49 id
-           | RQueued SEnding => bind (do_step a (StartWrite id) 50 id) (fun a1 => do_step a1 (AfterErr id) 51 id)
-           | RNone =>
-               if has SRetrying then bind (ensure_queued a id SRetrying) (fun a1 => do_step a1 (RetryErr id) 52 id)
-               else if has SInit then bind (ensure_queued a id SInit) (fun a1 => do_step a1 (BeforeErr id) 56 id)
-               else bind (ensure_queued a id SEnding) (fun a1 =>
-                    bind (do_step a1 (StartWrite id) 53 id) (fun a2 => do_step a2 (AfterErr id) 54 id))
-           | _ => Rej 55 id
-           end (fun a1 => finish a1 id)
-    | _ => Rej (80 + st) id      (* canceled, blocked, continue, skipped: outside the model *)
+    | 5 => let fail_from (a0 : acc) : res :=
+             match runs (a_ec a0) id with
+             | RInMain => do_step a0 (MainErr id) 46 id
+             | REnding => do_step a0 (AfterErr id) 47 id
+             | RQueued SInit | RQueued SContinue => do_step a0 (BeforeErr id) 48 id
+             | RQueued SRetrying => do_step a0 (RetryErr id) 49 id
+             | RQueued SEnding => bind (do_step a0 (StartWrite id) 50 id) (fun a1 => do_step a1 (AfterErr id) 51 id)
+             | _ => Rej 55 id
+             end in
+           bind (match runs (a_ec a) id with
+                 | RNone => let '(r, _) := ensure_queued a id in bind r fail_from
+                 | _ => fail_from a
+                 end) (fun a1 => finish a1 id)
+    | _ => Rej (80 + st) id      (* canceled: outside the model *)
     end.
 
   (** the harness found the real engine quiescent: deliveries the executor refused are dropped; nothing else
@@ -180,8 +207,19 @@ Section A.
         end
     end.
 
+  Fixpoint push_all (fuel : nat) (a : acc) : res :=
+    match fuel with
+    | O => Ok a
+    | S f =>
+        match pushq (a_ec a) with
+        | [] => Ok a
+        | (t, sn) :: _ => bind (do_step a (PushRun t sn) 65 t) (push_all f)
+        end
+    end.
+
   Definition on_quiescent (a : acc) : res :=
-    bind (flush_all (restart_idle_if_needed a)) (fun a1 =>
+    bind (flush_all (restart_idle_if_needed a)) (fun a0 =>
+    bind (push_all (S (length (pushq (a_ec a0)))) a0) (fun a1 =>
     bind (drop_refused (S (length (pend (a_ec a1)))) a1) (fun a2 =>
       match evq (a_ec a2) with
       | (t, _) :: _ => Rej 77 t
@@ -189,7 +227,7 @@ Section A.
               | t :: _ => Rej 76 t
               | [] => Ok a2
               end
-      end)).
+      end))).
 
   Definition on_event (a : acc) (ev : sx) : res :=
     match ev with
@@ -197,17 +235,24 @@ Section A.
         if negb (Z.eqb fault 0) then Rej 90 fault else
         match sop_of_sx op with
         | Some (OPatchTask id st _ _) =>
-            if Z.eqb origin 0 then on_patch a id st
+            if Z.eqb st 10 then on_verdict a id true
+            else if Z.eqb st 8 then on_verdict a id false
+            else if Z.eqb origin 0 then on_patch a id st
             else if Z.eqb origin 3 && Z.eqb st 5 then do_step a (WdFail id) 92 id
             else Rej 91 origin
         | Some (OUpdateTask r) =>
-            if Z.eqb (t_status r) 7 then do_step a (Rearm (t_id r)) 30 (t_id r) else Rej 31 (t_id r)
+            if Z.eqb (t_status r) 7 then do_step a (Rearm (t_id r)) 30 (t_id r)
+            else if Z.eqb (t_status r) 9 then do_step a (ContArm (t_id r)) 30 (t_id r) else Rej 31 (t_id r)
         | Some (OPatchIns id _ st cmd must_cmd _ _ _) =>
             match cmd with
             | Some _ => if Z.eqb origin 6 then do_step a CmdIssue 33 id else Rej 34 origin
             | None =>
                 if Z.eqb origin 2 && must_cmd then do_step a CmdPatch 35 id
-                else if Z.eqb origin 1 && Z.eqb st 3 then Ok {| a_ec := a_ec a; a_stale := a_stale a; a_started := true |}
+                else if Z.eqb origin 1 && Z.eqb st 3 then Ok {| a_ec := a_ec a; a_stale := a_stale a; a_started := true; a_defer := a_defer a |}
+                else if a_defer a then
+                  bind (do_step a (Rebuild (Z.eqb st 4)) 38 origin) (fun a1 =>
+                    if Z.eqb (ins_code (ins (a_ec a1))) st then Ok {| a_ec := a_ec a1; a_stale := a_stale a1; a_started := false; a_defer := false |}
+                    else Rej 39 origin)
                 else if Z.eqb st 0 then Ok a
                 else if Z.eqb origin 0 then deliver_verdict a st
                 else if Z.eqb origin 3 then Ok a   (* the watchdog marks the instance failed, then the task: one step of the model, taken at the task write *)
@@ -221,8 +266,15 @@ Section A.
                 then match reply with
                      | L [I 6; L []] => Ok a
                      | _ => if Z.eqb origin 1 && negb (a_started a) then Ok a
-                            else bind (do_step a Rebuild 32 origin) (fun a1 =>
-                                 Ok {| a_ec := a_ec a1; a_stale := a_stale a1; a_started := false |})
+                            else
+                              let st0 := store (a_ec a) in
+                              let ambiguous := match filter (pushable deps st0) tasks with
+                                               | [] => negb (Z.eqb (ins_code (ist_of (verdict_of tasks deps false st0)))
+                                                                   (ins_code (ist_of (verdict_of tasks deps true st0))))
+                                               | _ => false end in
+                              if ambiguous then Ok {| a_ec := a_ec a; a_stale := a_stale a; a_started := a_started a; a_defer := true |}
+                              else bind (do_step a (Rebuild false) 32 origin) (fun a1 =>
+                                   Ok {| a_ec := a_ec a1; a_stale := a_stale a1; a_started := false; a_defer := false |})
                      end
                 else Ok a
             | ids, [] =>
@@ -255,7 +307,7 @@ Definition is_core (evs : list sx) : bool :=
 Definition core_run (evs : list sx) : res * Z :=
   let recs := created evs in
   let tasks := map t_id recs in
-  run_events tasks (deps_of recs) {| a_ec := boot; a_stale := []; a_started := false |} evs 0.
+  run_events tasks (deps_of recs) {| a_ec := boot; a_stale := []; a_started := false; a_defer := false |} evs 0.
 
 (** correspondence: the journal is a history of Engine (code as it is) *)
 Definition check_core (c : sx) : verdict :=
